@@ -265,6 +265,13 @@ class RSeq:
         self.step_no = 0
         self.step_starts = []         # (phase, persistent store) at the start of every step
 
+    def _mask_copy(self, value):
+        if isinstance(value, np.ndarray):
+            m = self.masks.by_id.get(id(value))
+            if m is not None:
+                return m.copy()
+        return None
+
     # ---- user function wrapper: call log + fault injection
     def _wrap_user(self, name, f):
         def g(*args, **kw):
@@ -312,7 +319,8 @@ class RSeq:
         self.store[name] = value
         self.taint[name] = set(self._cur_taint)
         if is_persistent(name):
-            self.step_writes[-1].setdefault(name, []).append((copyval(value), set(self._cur_taint)))
+            self.step_writes[-1].setdefault(name, []).append(
+                (copyval(value), set(self._cur_taint), self._mask_copy(value)))
 
     def run_op(self, op, active, guard_taint, path):
         k = op[0]
@@ -412,7 +420,8 @@ class RSeq:
                 self.masks.wrote(agg, idx)
                 self.taint[lhs] = self.taint.get(lhs, set()) | set(self._cur_taint)
                 if is_persistent(lhs):
-                    self.step_writes[-1].setdefault(lhs, []).append((agg.copy(), set(self.taint[lhs])))
+                    self.step_writes[-1].setdefault(lhs, []).append(
+                        (agg.copy(), set(self.taint[lhs]), self._mask_copy(agg)))
             else:
                 val = self._eval(rhs)
                 self._write(lhs, val)
